@@ -107,6 +107,7 @@ def run(prog, rep, tier, repo):
         me = ('arg', 1, f.names.get(1))
         x = ('arg', 2, f.names.get(2))
         problems = []
+        undec = []
         rets = f.return_values()
         ok = False
         if len(rets) == 1 and tag(rets[0]) == 'call' and short(rets[0][1]) == 'collect' and tag(rets[0][2][0]) == 'call' and short(rets[0][2][0][1]) == 'map':
@@ -115,7 +116,7 @@ def run(prog, rep, tier, repo):
                 problems.append('not one prediction per element of x')
             g = prog.func(cl[2]) if tag(cl) == 'agg' else None
             if g is None:
-                problems.append('outer closure not found')
+                undec.append('outer closure not found')
             else:
                 rep.touch(cl[2])
                 val = ('arg', 2, g.names.get(2))
@@ -138,7 +139,7 @@ def run(prog, rep, tier, repo):
                         problems.append('fold does not start from 0')
                     h = prog.func(cl2[2]) if tag(cl2) == 'agg' else None
                     if h is None:
-                        problems.append('fold closure not found')
+                        undec.append('fold closure not found')
                     else:
                         rep.touch(cl2[2])
                         acc = ('arg', 2, h.names.get(2))
@@ -153,9 +154,14 @@ def run(prog, rep, tier, repo):
                         if not okh:
                             problems.append('fold step is not acc * x + c: %s' % [show(v)[:80] for v in hv])
                 else:
-                    problems.append('prediction is not a fold over the coefficients')
+                    undec.append('prediction is not a fold over the coefficients')
         else:
-            problems.append('predict is not x.iter().map(..).collect()')
-        (rep.viol if problems else rep.ok)('horner', key, '; '.join(problems) if problems else 'fold(rev(coef), 0, |acc, c| acc*x + c) per x: c0 + c1 x + ... + cd x^d', site_of(f.body))
+            undec.append('predict is not x.iter().map(..).collect()')
+        if problems:
+            rep.viol('horner', key, '; '.join(problems), site_of(f.body))
+        elif undec:
+            rep.undecided('horner', key, 'evaluation idiom not read by this rule (%s)' % '; '.join(undec), site_of(f.body), proof=False)
+        else:
+            rep.ok('horner', key, 'fold(rev(coef), 0, |acc, c| acc*x + c) per x: c0 + c1 x + ... + cd x^d')
     rep.floor('horner', 1, 'predict')
     return {}
